@@ -62,6 +62,18 @@ def sort_protocol(ctx, L):
     L.check("known = set((x + y for x in 'uir' for y in ['8', '16', '32', '64']))" in s, 'C15.sort-protocol', 'known-seed', f.site(),
             'initially only the builtin types are known: anything else a node depends on must first be placed in front of it (a name '
             'delivered by an include can be shadowed by a local definition that still has to be ordered)', '')
+    muts = []
+    for g in [f] + [h for h in m.all_funcs() if h.qualname.startswith('topological_sort.')]:
+        for n_ in g.walk():
+            if isinstance(n_, ast.Call) and isinstance(n_.func, ast.Attribute) and unparse(n_.func.value) in ('known', 'available') \
+                    and n_.func.attr in ('add', 'update', 'discard', 'remove', 'clear', 'pop', 'difference_update', 'intersection_update'):
+                muts.append(ws(unparse(n_)))
+            if isinstance(n_, (ast.AugAssign,)) and unparse(n_.target) in ('known', 'available'):
+                muts.append(ws(unparse(n_)))
+    L.check(muts == ['known.add(node.name)'], 'C15.sort-protocol', 'known-mutations', f.site(),
+            'a name may become known only when its own node is settled (`known.add(node.name)`); names added wholesale (e.g. everything '
+            'an include delivers) are treated as already defined although a local definition of the same name may still sit behind '
+            'its user: %s' % muts, str(muts))
     L.check('available = set((node.name for node in nodes))' in s, 'C15.sort-protocol', 'available', f.site(),
             'exactly the names defined in this list can be moved', '')
     L.check('for index in range(len(nodes)): while model_sort_rotate(): pass' in s, 'C15.sort-protocol', 'outer-loop', f.site(),
